@@ -110,6 +110,11 @@ def scenarios(prog: Program, with_composites: bool = True, iterations: int = 1) 
             if comp is not None:
                 out.append(Scenario(prog, d, [MoveSpec(comp.name, [MoveSpec(mv.name), 0], criteria=crit.name)], iterations))
                 out.append(Scenario(prog, d, [MoveSpec(comp.name, [MoveSpec(mv.name), MoveSpec(mv.name)], criteria=crit.name)], iterations))
+        for mv, crit in singles:
+            # plain composite of two exchange-type moves (what `d + e1 + e2` contains): each child
+            # decides insertion/deletion on its own, so one trial can mix both
+            if "attempt_addition" in {f for c in prog.mro_classes(mv) for f in c.methods}:
+                out.append(Scenario(prog, d, [MoveSpec(cm.name, [MoveSpec(mv.name), MoveSpec(mv.name)], criteria=crit.name)], iterations))
         if len(singles) >= 2:
             a, b = singles[0], singles[-1]
             out.append(Scenario(prog, d, [MoveSpec(cm.name, [MoveSpec(a[0].name), MoveSpec(b[0].name)], criteria=b[1].name)], iterations))
